@@ -15,7 +15,7 @@ Definition demo_ops : list op := [OPollFresh; OFire 1 0; OPollSame; OFire 2 0; O
 (* std build (selective): the wake-up of leaf 0 inside the first poll reaches the caller's waker (W0) through both levels; the second poll visits
    only the first inner join (leaves 0 and 1); the third only leaf 2 *)
 Example nest_demo_selective :
-  nest_run true NJJ demo_scripts demo_ops =
+  nest_run true NJJ false demo_scripts demo_ops =
   [ EB 0; EC 0 (WSub 0); EAns APend; EC 1 (WSub 1); EAns APend; EC 2 (WSub 2); EF 0 0; EW 0; EAns APend; EC 3 (WSub 3); EAns (AReady (ROk 4)); EDc 3; EEndP;
     EO; EF 1 0;
     EB 0; EC 0 (WSub 0); EAns (AReady (ROk 1)); EDc 0; EC 1 (WSub 1); EAns (AReady (ROk 2)); EDc 1; EEndP;
@@ -26,7 +26,7 @@ Proof. vm_compute. reflexivity. Qed.
 
 (* alloc build (every leaf is handed the caller's waker; every pending child is polled in every poll) *)
 Example nest_demo_nonselective :
-  nest_run false NJJ demo_scripts demo_ops =
+  nest_run false NJJ false demo_scripts demo_ops =
   [ EB 0; EC 0 (WPar 0); EAns APend; EC 1 (WPar 0); EAns APend; EC 2 (WPar 0); EF 0 0; EW 0; EAns APend; EC 3 (WPar 0); EAns (AReady (ROk 4)); EDc 3; EEndP;
     EO; EF 1 0; EW 0;
     EB 0; EC 0 (WPar 0); EAns (AReady (ROk 1)); EDc 0; EC 1 (WPar 0); EAns (AReady (ROk 2)); EDc 1; EC 2 (WPar 0); EAns (AReady (ROk 3)); EDc 2;
